@@ -206,7 +206,12 @@ class Panoptica_Evaluator(SupportsConfig):
                 prediction_arr=processing_pair_grouped.prediction_arr,
                 reference_arr=processing_pair_grouped.reference_arr,
             )
-            decision_threshold = 0.0
+            # no decision filtering for the single instance, whatever the metric's direction
+            decision_threshold = (
+                0.0
+                if self.__decision_metric is None or self.__decision_metric.increasing
+                else np.inf
+            )
 
         result, intermediate_steps_data = panoptic_evaluate(
             input_pair=processing_pair_grouped,
